@@ -78,7 +78,14 @@ try:
 
         from ..converters import NestedSequenceConverter
 
-        return NestedSequenceConverter(dtype, array, ragged=False, handlers=handlers)  # type: ignore
+        constructor: t.Any = array
+        if isinstance(dtype, type) and issubclass(dtype, generic) and dtype is not generic:
+            # make the array with the declared element type (numpy would otherwise choose
+            # one from the values: float64 for an empty list, int64 where int32 is declared)
+            def constructor(val: t.Any, _dtype: t.Any = dtype) -> t.Any:
+                return array(val, dtype=_dtype)
+
+        return NestedSequenceConverter(dtype, constructor, ragged=False, handlers=handlers)  # type: ignore
 
 except ImportError:
     if not t.TYPE_CHECKING:
